@@ -50,8 +50,9 @@ fn keywords_instance(n: usize, width: usize) -> Instance {
     let mut probes = vec![];
     for i in [0, 1, 95, 96, 255, 256, 257, 511, 512, 819, 820, 1023, 1024, 4095, 4096, 65_535, 65_536, n / 2, n - 2, n - 1] {
         if i < n {
-            probes.push((kws[i].clone(), vec![(i, 0, width + 1)]));
-            // one character less is no keyword
+            // (numbers with more digits than `width` make longer keywords)
+            probes.push((kws[i].clone(), vec![(i, 0, kws[i].len())]));
+            // one character less than the shortest keyword is no keyword
             probes.push((kws[i][..width].to_string(), vec![]));
         }
     }
